@@ -156,7 +156,7 @@ fn last_panic_is_planted_trap() -> bool {
 fn isolated_body(src: &str, filename: &str) -> Shown {
     // a little smaller than the playground's 16 MiB arenas, which also hold the resolver's
     // scratch data: a program that fits here fits there (one that does not is discarded)
-    let arena = Arena::new(12 * MEBI).expect("arena");
+    let arena = Arena::new(if ROOMY_REFERENCE.with(std::cell::Cell::get) { 4096 * MEBI } else { 12 * MEBI }).expect("arena");
     let frame = Arena::new(12 * MEBI).expect("frame");
     let lexer = Lexer::new(src, &arena);
     let mut parser = Parser::new(lexer, &arena);
@@ -188,8 +188,18 @@ fn isolated_body(src: &str, filename: &str) -> Shown {
 }
 
 /// What `naija` must write to stdout and its exit status, predicted with the library pipeline.
+thread_local! {
+    /// Reference runs of the "many diagnostics" templates get a roomy arena: what such a program
+    /// legitimately needs is a report of a few hundred KiB, so a reference that runs out of memory
+    /// would only hide a renderer that wastes it.
+    static ROOMY_REFERENCE: std::cell::Cell<bool> = const { std::cell::Cell::new(false) };
+}
+fn roomy(plant: &Value) -> bool {
+    plant == "many-errors" || plant == "many-warnings"
+}
+
 pub fn predict_cli(src: &str, filename: &str) -> (Vec<u8>, i32, &'static str) {
-    let arena = Arena::new(200 * MEBI).expect("arena");
+    let arena = Arena::new(if ROOMY_REFERENCE.with(std::cell::Cell::get) { 4096 * MEBI } else { 200 * MEBI }).expect("arena");
     let frame = Arena::new(64 * MEBI).expect("frame");
     let lexer = Lexer::new(src, &arena);
     let mut parser = Parser::new(lexer, &arena);
@@ -298,6 +308,20 @@ fn many_errors(r: &mut Rng) -> String {
     src
 }
 
+/// Nothing but warnings: `n` variables that are never read, in a source padded to `pad` extra bytes
+/// of comments, then one printed value. The report is n short entries.
+fn many_warnings(n: u64, pad: usize) -> String {
+    let mut src = String::new();
+    for i in 0..n {
+        src += &format!("make v{i:04} get 1\n");
+    }
+    while src.len() < pad {
+        src += "# padding padding padding padding padding padding padding padding\n";
+    }
+    src += "shout(\"done\")\n";
+    src
+}
+
 /// A function-free loop whose per-iteration temporaries add up to more than the CLI's 256 MiB
 /// arenas unless the frame arena is really being reset.
 fn churn_loop(r: &mut Rng) -> String {
@@ -388,7 +412,9 @@ impl C14 {
         for &pi in &order {
             if alone_of[pi].is_none() {
                 stage(&format!("alone {pi}"));
+                ROOMY_REFERENCE.with(|c| c.set(roomy(&progs[pi]["plant"])));
                 alone_of[pi] = Some(isolated_run(&source_of(&progs[pi]), "playground.ns", progs[pi]["plant"] == "trap"));
+                ROOMY_REFERENCE.with(|c| c.set(false));
             }
         }
         // the embedder's glue hands every run its source in the same reused block of memory
@@ -456,7 +482,9 @@ impl C14 {
             _ => path.clone(),
         };
         stage("predict");
+        ROOMY_REFERENCE.with(|c| c.set(roomy(&case["program"]["plant"])));
         let (want_out, want_code, ending) = predict_cli(&src, &label);
+        ROOMY_REFERENCE.with(|c| c.set(false));
         stage("cli");
         if ending == "runtime-error" && want_out.windows(14).any(|w| w == b"Stack overflow") {
             // where exactly the depth budget trips depends on the build's frame sizes (C08 territory):
@@ -553,6 +581,12 @@ impl Engine for C14 {
             let mut route = r.pick(&["file", "eval", "stdin", "file", "stdin", "devstdin"]);
             if r.chance(3) {
                 program = json!({"prog": prog::block_to_json(&[St::Raw(many_errors(&mut r))]), "plant": "many-errors"});
+            } else if r.chance(3) {
+                let text = many_warnings(r.pick(&[30u64, 125, 500, 800]), r.pick(&[0usize, 10_000, 68_000]));
+                program = json!({"prog": prog::block_to_json(&[St::Raw(String::new())]), "src": text, "plant": "many-warnings"});
+                if route == "eval" && program["src"].as_str().unwrap().len() > 100_000 {
+                    route = "file";
+                }
             } else if r.chance(2) {
                 program = json!({"prog": prog::block_to_json(&[St::Raw(churn_loop(&mut r))]), "plant": "churn-loop"});
                 if route == "eval" {
@@ -582,6 +616,12 @@ impl Engine for C14 {
         // (a) session
         let nprogs = r.usize(1, 6);
         let mut programs: Vec<Value> = (0..nprogs).map(|_| gen_program(&mut r)).collect();
+        if r.chance(6) {
+            // a report of many warnings inside a session (the playground's arenas are 16 MiB)
+            let text = many_warnings(r.pick(&[30u64, 60, 125]), r.pick(&[0usize, 10_000]));
+            let k = r.usize(0, nprogs - 1);
+            programs[k] = json!({"prog": prog::block_to_json(&[St::Raw(String::new())]), "src": text, "plant": "many-warnings"});
+        }
         // fault: runs that end in a trap at an arbitrary point (the playground instance survives a
         // trapped run; its scratch guards are never dropped). One session in six is trap-heavy.
         let trap_heavy = r.chance(16);
